@@ -24,6 +24,33 @@ func goid() uint64 {
 }
 
 var retryCancels sync.Map // goroutine id -> context.CancelFunc
+var timerHooks sync.Map   // goroutine id -> func(time.Duration) bool
+
+func installBackoffHook() {
+	backoffHookOnce.Do(func() {
+		backoff.VerifTimerHook = func(d time.Duration) bool {
+			id := goid()
+			if h, ok := timerHooks.Load(id); ok {
+				return h.(func(time.Duration) bool)(d)
+			}
+			if c, ok := retryCancels.Load(id); ok {
+				c.(context.CancelFunc)()
+				return false
+			}
+			return true
+		}
+	})
+}
+
+// GoroutineTimerHook installs f as the back-off timer decision for timers
+// started by the calling goroutine only (true = fire at once, false = never);
+// the returned func removes it. Safe for parallel use.
+func GoroutineTimerHook(f func(time.Duration) bool) func() {
+	id := goid()
+	timerHooks.Store(id, f)
+	installBackoffHook()
+	return func() { timerHooks.Delete(id) }
+}
 
 // NoRetryContext returns a context that is cancelled as soon as the calling
 // goroutine's back-off retry loop starts its first wait: a feed cycle then
@@ -33,15 +60,7 @@ func NoRetryContext(parent context.Context) (context.Context, func()) {
 	ctx, cancel := context.WithCancel(parent)
 	id := goid()
 	retryCancels.Store(id, cancel)
-	backoffHookOnce.Do(func() {
-		backoff.VerifTimerHook = func(time.Duration) bool {
-			if c, ok := retryCancels.Load(goid()); ok {
-				c.(context.CancelFunc)()
-				return false
-			}
-			return true
-		}
-	})
+	installBackoffHook()
 	return ctx, func() { retryCancels.Delete(id); cancel() }
 }
 
